@@ -34,6 +34,16 @@ def cache_discipline(px):
                                              for t in n.targets if isinstance(t, ast.Name)}
     popped = {t.id for n in ast.walk(f.node) if isinstance(n, ast.Assign) and isinstance(n.value, ast.Call) and getattr(n.value.func, "attr", "") in ("pop", "popleft")
               for t in n.targets if isinstance(t, ast.Name)}
+    # ... or handed over, one per round, by a private generator that walks the class and its ancestors (it yields what it pops)
+    for lp_ in ast.walk(f.node):
+        if isinstance(lp_, ast.For) and isinstance(lp_.target, ast.Name) and isinstance(lp_.iter, ast.Call) and isinstance(lp_.iter.func, ast.Attribute) \
+                and isinstance(lp_.iter.func.value, ast.Name) and lp_.iter.func.value.id in ("self", "cls") and f.cls is not None and lp_.iter.func.attr in f.cls.methods:
+            h_ = f.cls.methods[lp_.iter.func.attr].node
+            hpopped = {t.id for n in ast.walk(h_) if isinstance(n, ast.Assign) and isinstance(n.value, ast.Call) and getattr(n.value.func, "attr", "") in ("pop", "popleft")
+                       for t in n.targets if isinstance(t, ast.Name)}
+            ys_ = [y_ for y_ in ast.walk(h_) if isinstance(y_, ast.Yield)]
+            if len(ys_) == 1 and isinstance(ys_[0].value, ast.Name) and ys_[0].value.id in hpopped:
+                popped.add(lp_.target.id)
     tparam = f.node.args.args[2].arg if len(f.node.args.args) > 2 else "templates"
     writes = []   # (key expr, value expr, node)
     for n in ast.walk(f.node):
@@ -223,6 +233,29 @@ def _precedence_rest(ctx, R, px, gs):
 
     it = px.func(LOADERS, "DSDLTemplateLoader._type_to_template_internal")
     src = ast.unparse(it.node)
+    # the walk over the class and its ancestors may live in a private generator the search iterates (`for c in self._walk(value_type):`):
+    # the queue is judged there, the consumer's loop variable is what was popped
+    it_real = it
+    walker_loops = []
+    for lp_ in ast.walk(it.node):
+        if isinstance(lp_, ast.For) and isinstance(lp_.iter, ast.Call) and isinstance(lp_.iter.func, ast.Attribute) and isinstance(lp_.iter.func.value, ast.Name) \
+                and lp_.iter.func.value.id in ("self", "cls") and it.cls is not None and lp_.iter.func.attr in it.cls.methods and isinstance(lp_.target, ast.Name):
+            h_ = it.cls.methods[lp_.iter.func.attr]
+            if any(isinstance(n_, ast.Call) and ast.unparse(n_.func) in ("collections.deque", "deque") for n_ in ast.walk(h_.node)) \
+                    and any(isinstance(y_, ast.Yield) for y_ in ast.walk(h_.node)):
+                walker_loops.append((lp_, h_))
+    if len(walker_loops) == 1:
+        lp_, h_ = walker_loops[0]
+        hp_ = [a_.arg for a_ in h_.node.args.args if a_.arg not in ("self", "cls")]
+        started = len(lp_.iter.args) == 1 and len(hp_) == 1 and ast.unparse(lp_.iter.args[0]) == it.node.args.args[1].arg
+        ctx.ob(R, it.module.rel, f"{it.short} :: the ancestor walk {h_.short} is started at the class that was asked for", started, "", lp_.lineno)
+        import copy as _copy
+        it = _copy.copy(h_)
+        # the generator's parameter plays the part of value_type: args = (self?, value_type)
+        it.node = _copy.deepcopy(h_.node)
+        if len(it.node.args.args) == 1:
+            it.node.args.args.insert(0, ast.arg(arg="self"))
+        it.short_consumer = it_real.short
     # queue discipline
     # the search queue: the local(s) bound to a deque
     qinit = [n for n in ast.walk(it.node) if isinstance(n, (ast.Assign, ast.AnnAssign)) and isinstance(n.value, ast.Call)
@@ -252,9 +285,16 @@ def _precedence_rest(ctx, R, px, gs):
     ok = len(loops) == 1 and ast.unparse(loops[0].iter).endswith(".__bases__")
     ctx.ob(R, it.module.rel, f"{it.short} :: enqueues the direct bases of the class that had no template", ok, "", it.node.lineno)
     # template is looked up by the class's own name
-    tparam = it.node.args.args[2].arg if len(it.node.args.args) > 2 else "templates"
     popped = {t.id for n in ast.walk(it.node) if isinstance(n, ast.Assign) and isinstance(n.value, ast.Call) and getattr(n.value.func, "attr", "") in ("pop", "popleft")
               for t in n.targets if isinstance(t, ast.Name)}
+    if it_real is not it:
+        # the consumer sees what the walker yields: the popped class, once per round
+        ys_ = [y_ for y_ in ast.walk(it.node) if isinstance(y_, ast.Yield)]
+        ok_y = len(ys_) == 1 and isinstance(ys_[0].value, ast.Name) and ys_[0].value.id in popped
+        ctx.ob(R, it.module.rel, f"{it.short} :: yields every class it takes from the queue", ok_y, "", it.node.lineno)
+        popped = {walker_loops[0][0].target.id} if ok_y else set()
+        it = it_real
+    tparam = it.node.args.args[2].arg if len(it.node.args.args) > 2 else "templates"
     lookups = [n for n in ast.walk(it.node) if isinstance(n, ast.Subscript) and isinstance(n.ctx, ast.Load) and isinstance(n.value, ast.Name) and n.value.id == tparam]
     lookups += [ast.Subscript(value=c.func.value, slice=c.args[0], ctx=ast.Load()) for c in ast.walk(it.node) if isinstance(c, ast.Call) and isinstance(c.func, ast.Attribute)
                 and c.func.attr == "get" and isinstance(c.func.value, ast.Name) and c.func.value.id == tparam and c.args]
